@@ -271,12 +271,18 @@ def record_run(threshold):
         return orig(pipeline, use_cache)
 
     api.sql_pipeline_to_splink_dataframe = wrap
+    from harness import c05_guard as G
+    G.install(api, 6)
     nodes = pd.DataFrame({"uid": list(range(6))})
     edges = pd.DataFrame({"uid_l": [3, 1, 5, 0, 4], "uid_r": [1, 5, 0, 4, 2], "match_probability": [1.0] * 5})
     kw = {} if threshold is None else {"threshold_match_weight": 0} if threshold == "w0" else \
         {"threshold_match_probability": threshold}
-    out = cpt(nodes, edges, api, "uid", **kw)
-    rows = sorted((r["uid"], r["cluster_id"]) for r in out.as_record_dict())
+    try:
+        with G.time_limit(120, "probe clustering"):
+            out = cpt(nodes, edges, api, "uid", **kw)
+            rows = sorted((r["uid"], r["cluster_id"]) for r in out.as_record_dict())
+    except G.NonTermination as e:
+        raise Untranslatable(f"probe clustering does not terminate: {e}") from e
     return rec, rows
 
 
@@ -292,16 +298,25 @@ INIT_NAMES = [("__splink__df_edges_with_self_loops", "edges_with_self_loops"), (
               ("neighbours_first_iter", "neighbours_first_iter"), ("__splink__df_representatives", "df_representatives")]
 
 
+def static_obligations():
+    """Obligations that need no run of the implementation (evaluated before any probe: a loop that
+    never exits must not keep them from being reported)."""
+    try:
+        return [("python_loop", python_loop(), None)]
+    except Untranslatable as e:
+        return [("python_loop", None, str(e))]
+
+
 def obligations():
     """-> list of (obligation name, sx | None, error | None).  One per CTE (per pass for the loop
     CTEs, per threshold variant for the thresholded CTE) plus the data flow of the final UNION ALL."""
     obs = []
-    try:
-        obs.append(("python_loop", python_loop(), None))
-    except Untranslatable as e:
-        obs.append(("python_loop", None, str(e)))
     for variant, thr in (("thr", 0.5), ("nothr", None), ("weight0", "w0"), ("thr0", 0.0)):
-        rec, rows = record_run(thr)
+        try:
+            rec, rows = record_run(thr)
+        except Untranslatable as e:
+            obs.append((f"statement sequence ({variant})", None, str(e)))
+            continue
         pos = 0
 
         def take(expected_name):
